@@ -21,6 +21,7 @@ class Scheduler:
         self.finished = {}
         self.lock_holder = {}    # lock file -> tid holding it (FileLock is per entry file)
         self.wants = {}          # tid -> lock file it is about to acquire
+        self.finite = {}         # tid -> the lock it is about to acquire was made with a finite timeout
         self.tls = threading.local()
 
     def point(self, name):
@@ -38,7 +39,7 @@ class Scheduler:
     def enabled(self):
         with self.cv:
             return sorted(t for t, p in self.waiting.items()
-                          if not (p == 'acquire' and self.lock_holder.get(self.wants.get(t)) is not None))
+                          if not (p == 'acquire' and self.lock_holder.get(self.wants.get(t)) is not None and not self.finite.get(t)))
 
     def grant(self, tid):
         with self.cv:
@@ -56,13 +57,20 @@ class Scheduler:
 
 
 class CoopLock:
-    def __init__(self, sched, name=''):
-        self.sched, self.name = sched, str(name)
+    """the entry lock.  Without a timeout (filelock's default, -1) a caller waits as long as it takes: it is not enabled
+    while another caller holds the lock.  With a finite timeout the waiting caller may also be scheduled while the lock
+    is held - the holder's computation or write took longer than the timeout - and the acquisition raises Timeout."""
+    def __init__(self, sched, name='', timeout=-1):
+        self.sched, self.name, self.timeout = sched, str(name), timeout
 
     def __enter__(self):
         tid = getattr(self.sched.tls, 'tid', None)
         self.sched.wants[tid] = self.name
+        self.sched.finite[tid] = self.timeout is not None and self.timeout >= 0
         self.sched.point('acquire')
+        if self.sched.lock_holder.get(self.name) is not None:
+            from filelock import Timeout
+            raise Timeout(self.name)
         self.sched.lock_holder[self.name] = tid
         return self
 
@@ -112,7 +120,10 @@ def run_schedule(case):
     d = tempfile.mkdtemp(prefix='tcverif-conc-')
     orig_lock, orig_load, orig_open, orig_replace, orig_mkdir = tc.FileLock, tc.JsonCache.load_value, Path.open, Path.replace, Path.mkdir
     try:
-        cache = tc.JsonCache(Path(d) / 'c')
+        # the callers use one cache object, or cache objects of their own over the same directory (`obj` per caller)
+        n_objs = 1 + max([c.get('obj', 0) for c in case['callers']] + [c.get('obj', 0) for c in case.get('then', [])])
+        caches = [tc.JsonCache(Path(d) / 'c') for _ in range(n_objs)]
+        cache = caches[0]
         key = 'the key'
         keys = case.get('keys') or [key] * len(case['callers'])      # per caller (keys of one shard directory)
         key = keys[0]
@@ -124,7 +135,7 @@ def run_schedule(case):
                 t.write_text(json.dumps({'key': k, 'value': INIT_VALUE}))
         elif case.get('fresh_dir'):
             target.parent.rmdir()          # a key that was never used: its shard directory does not exist yet
-        tc.FileLock = lambda name='', *a, **k: CoopLock(sched, name)
+        tc.FileLock = lambda name='', *a, **k: CoopLock(sched, name, timeout=k.get('timeout', a[0] if a else -1))
 
         def pmkdir(self, *a, **k):
             if self == target.parent and getattr(sched.tls, 'tid', None) is not None:
@@ -156,6 +167,7 @@ def run_schedule(case):
             try:
                 sched.point('acquire0')      # PStart: wait for the first grant before doing anything
                 key = keys[tid]
+                cache = caches[case['callers'][tid].get('obj', 0)]
                 if kind == 'get':
                     r = cache.get(key)
                     results[tid] = 'novalue' if r is tc.NO_VALUE else ['value', r]
@@ -201,8 +213,25 @@ def run_schedule(case):
             states.append(file_state(target))
         for th in threads:
             th.join(5)
+        # calls that start after all the others have returned (no scheduling: the points are no-ops outside the callers)
+        quiescent, then = file_state(target), []
+        for j, c in enumerate(case.get('then', [])):
+            ran = []
+
+            def computer():
+                ran.append(1)
+                return 500 + j
+            try:
+                if c['kind'] == 'get':
+                    r = caches[c.get('obj', 0)].get(keys[0])
+                    then.append(['novalue' if r is tc.NO_VALUE else 'value', None if r is tc.NO_VALUE else r, 0])
+                else:
+                    r = caches[c.get('obj', 0)].get_or_compute(keys[0], computer, force=c.get('force', False))
+                    then.append(['value', r, len(ran)])
+            except Exception as e:
+                then.append(['exception', type(e).__name__, len(ran)])
         return dict(trace=trace, states=states, results=[results.get(t) for t in range(len(threads))],
-                    computed=computed, final=file_state(target), finals=[file_state(t) for t in targets])
+                    computed=computed, final=quiescent, finals=[file_state(t) for t in targets], then=then)
     finally:
         tc.FileLock, tc.JsonCache.load_value, Path.open, Path.replace = orig_lock, orig_load, orig_open, orig_replace
         Path.mkdir = orig_mkdir
@@ -272,6 +301,19 @@ Definition conc_model (c : fstate * list (kind * nat) * list nat) : list (option
                  script=[0, 0, 0, 1, 1, 1, 0, 0, 0, 0, 0, 2, 2, 2, 1, 1, 1, 2, 1, 1, 1]),
             dict(init='absent', callers=[dict(kind='goc', force=False), dict(kind='goc', force=False), dict(kind='goc', force=False)],
                  seed=9, script=[0, 0, 0, 1, 1, 1, 0, 0, 0, 0, 0, 2, 2, 2, 1, 1, 1, 2, 1, 1, 1]),
+            # a caller asks for the entry lock while another caller holds it - for its existence check, and for its
+            # computation and write: it waits, however long that takes
+            dict(init='absent', callers=[dict(kind='goc', force=False), dict(kind='get')], seed=11, script=[0, 1, 1, 1, 0, 1]),
+            dict(init='absent', callers=[dict(kind='goc', force=False), dict(kind='goc', force=False)], seed=12, script=[0, 0, 0, 1, 1, 0, 1]),
+            dict(init='full', callers=[dict(kind='goc', force=True), dict(kind='get')], seed=13, script=[0, 0, 0, 0, 1, 1, 0, 1]),
+            # a cache object misses the entry, another object (thread with its own object, another process) stores it and
+            # returns, then the first object is asked again
+            dict(init='absent', callers=[dict(kind='get', obj=0), dict(kind='goc', force=False, obj=1)], seed=14,
+                 script=[0, 0, 0, 0, 1, 1, 1, 1, 1, 1, 1, 1, 1], then=[dict(kind='get', obj=0), dict(kind='goc', obj=0), dict(kind='get', obj=1)]),
+            dict(init='absent', callers=[dict(kind='goc', force=False, obj=0), dict(kind='goc', force=False, obj=1)], seed=15,
+                 script=[0, 0, 0, 1, 1, 1, 1, 1, 1, 1, 1, 1, 1, 0, 0, 0, 0, 0, 0], then=[dict(kind='goc', obj=0), dict(kind='get', obj=0), dict(kind='goc', obj=1)]),
+            dict(init='absent', callers=[dict(kind='get', obj=0), dict(kind='get', obj=1)], seed=16,
+                 then=[dict(kind='goc', obj=1), dict(kind='get', obj=0), dict(kind='goc', obj=0), dict(kind='goc', obj=0, force=True), dict(kind='get', obj=1)]),
             # two and three callers start at the same moment on a key that was never used (no directory yet)
             dict(init='absent', callers=[dict(kind='goc', force=False), dict(kind='goc', force=False)], seed=4, late_start=True,
                  fresh_dir=True, script=[0, 1, 0, 1]),
@@ -296,6 +338,10 @@ Definition conc_model (c : fstate * list (kind * nat) * list nat) : list (option
                             late_start=rng.random() < 0.5))
             if out[-1]['init'] == 'absent' and rng.random() < 0.5:
                 out[-1]['fresh_dir'] = True       # never-used key: the callers also race for its directory
+            if rng.random() < 0.4:                # cache objects of their own, and calls after the others have returned
+                for c in callers:
+                    c['obj'] = rng.randrange(2)
+                out[-1]['then'] = [dict(kind=rng.choice(['get', 'goc']), obj=rng.randrange(2)) for _ in range(rng.choice([1, 2, 3]))]
         return out
 
     def run_impl(self, case):
@@ -363,6 +409,17 @@ Definition conc_model (c : fstate * list (kind * nat) * list nat) : list (option
                 window = any(obs['trace'][i][1] == 'truncate' and obs['trace'][i][0] != t and
                              case['callers'][obs['trace'][i][0]].get('force') for i in range(mine[0], mine[-1] + 1))
                 return ('[unlocked-load-window] ' if window else '') + bad
+        # calls made after every other call has returned: the entry stored at quiescence is what they see
+        stored = obs['final'][1] if obs['final'] not in ('absent', 'empty') and obs['final'][0] == 'full' else None
+        for j, (c, r) in enumerate(zip(case.get('then', []), obs.get('then', []))):
+            who = f'call {j} made after all others had returned ({c["kind"]} through cache object {c.get("obj", 0)})'
+            if r[0] == 'exception':
+                return f'{who} failed with {r[1]}'
+            if stored is not None and not c.get('force'):
+                if r[0] != 'value' or r[1] != stored or r[2]:
+                    return f'{who} gave {r[:2]} with {r[2]} computation(s); the complete entry {stored} was stored when it started'
+            if c['kind'] == 'goc' and r[0] == 'value':
+                stored = r[1]
         return None
 
     def nontrivial(self, case, obs):
